@@ -9,6 +9,8 @@ package dkg
 // error and write nothing.
 
 import (
+	"strings"
+	"bytes"
 	"context"
 	"fmt"
 	"time"
@@ -263,8 +265,11 @@ func (h *c08H) driveLeft() {
 		return
 	}
 	for _, m := range members {
-		// same precondition as the recovery step: every member holds the epoch the proposal starts from
-		if v := h.view(m); v.fin == nil || v.fin.Epoch != gfin.Epoch || v.inFlight() {
+		// same precondition as the recovery step: every member holds the epoch the proposal starts from, with the
+		// same group (a DKG that ended differently on different nodes — a run outside the synchronous model — leaves
+		// members whose own proposal would not be the one the harness builds from the latest record)
+		if v := h.view(m); v.fin == nil || v.fin.Epoch != gfin.Epoch || v.inFlight() || v.fin.FinalGroup == nil ||
+			strings.Join(c06NodesDesc(v.fin.FinalGroup), ",") != strings.Join(c06NodesDesc(g), ",") || !bytes.Equal(v.fin.GenesisSeed, gfin.GenesisSeed) {
 			run.Count("left_family_reinvitation_skipped_members_inconsistent", 1)
 			return
 		}
@@ -318,6 +323,7 @@ func (h *c08H) driveLeft() {
 	}
 	h.net.resetLag()
 	h.net.maxLatNs.Store(0)
+	h.net.resetTiming()
 	if err := h.step(c08Opt{kind: "cmd-execute", class: "rejoin-of-left-node", actor: p.leader, target: p.leader}, func() error { return p.leader.cmdExecute() }); err != nil {
 		run.Count("left_family_rejoin_execute_refused", 1)
 		return
@@ -348,6 +354,14 @@ func (h *c08H) driveLeft() {
 	}
 	if lag > 150*time.Millisecond || lat > c08Phase/2 {
 		run.Inconclusive(fmt.Sprintf("case %d: re-join DKG of the node that left ended %v while the box was not keeping time (timer lag %v, slowest bundle %v)", h.c.Index, out, lag, lat))
+		return
+	}
+	var paddrs []string
+	for _, nd := range p.participants() {
+		paddrs = append(paddrs, nd.addr)
+	}
+	if late := h.net.synchronyKept(paddrs, "", c08Phase, 250*time.Millisecond+2*lag); late != "" {
+		run.Inconclusive(fmt.Sprintf("case %d: re-join DKG of the node that left ended %v outside the synchronous model: %s", h.c.Index, out, late))
 		return
 	}
 	if !xDone {
